@@ -17,6 +17,8 @@ else
   repo=$(mktemp -d /tmp/seedrun-XXXXXX)
   trap 'rm -rf "$repo" "$repo-verif"' EXIT
   (cd /repo && git archive HEAD) | tar -x -C "$repo"
+  base=$(jq -r '.base // empty' "$seed/meta.json" 2>/dev/null)   # seed made on top of a committed refactoring
+  if [ -n "$base" ]; then (cd "$repo" && patch -p1 -s < "$verif/$base/patch.diff") || { echo "base $base does not apply"; exit 2; }; fi
   (cd "$repo" && patch -p1 -s < "$seed/patch.diff") || { echo "patch does not apply"; exit 2; }
 fi
 mkdir -p "$repo-verif"; cp "$verif/known_findings.txt" "$repo-verif/" 2>/dev/null
